@@ -220,6 +220,7 @@ func leanBool(b bool) string {
 // Watch
 
 type watchFacts struct {
+	registersBeforeReturn bool // on every path the listener is registered by a statement of Watch's own body, before the goroutine starts
 	registerBeforeReplay bool
 	sends                int // sends on the consumer channel inside the per-watch goroutine(s)
 	guardedSends         int // … of which inside a select that also receives from ctx.Done()
@@ -331,6 +332,80 @@ func selectHasCtxDone(sel *ast.SelectStmt) bool {
 	return false
 }
 
+// isRegistration: `…[id] = eventCh` (shared dispatcher) or `… := ….Events(ctx, …)` (own stream).
+func isRegistration(n ast.Node) bool {
+	as, ok := n.(*ast.AssignStmt)
+	if !ok || len(as.Rhs) != 1 {
+		return false
+	}
+	if _, ok := as.Lhs[0].(*ast.IndexExpr); ok && exprString(as.Rhs[0]) == "eventCh" {
+		return true
+	}
+	if ce, ok := as.Rhs[0].(*ast.CallExpr); ok {
+		if se, ok := ce.Fun.(*ast.SelectorExpr); ok && se.Sel.Name == "Events" {
+			return true
+		}
+	}
+	return false
+}
+
+// alwaysRegisters: executing the statement registers the listener on every path through it.  Closures assigned to
+// a local (`register := func() {…}`) count at their CALL sites; a `go` statement or a function literal never counts;
+// an if counts only with an else, both branches registering.
+func alwaysRegisters(st ast.Stmt, closures map[string]bool) bool {
+	switch x := st.(type) {
+	case *ast.AssignStmt:
+		return isRegistration(x)
+	case *ast.ExprStmt:
+		if ce, ok := x.X.(*ast.CallExpr); ok {
+			if id, ok := ce.Fun.(*ast.Ident); ok && closures[id.Name] {
+				return true
+			}
+		}
+	case *ast.BlockStmt:
+		for _, s := range x.List {
+			if alwaysRegisters(s, closures) {
+				return true
+			}
+		}
+	case *ast.IfStmt:
+		if x.Else == nil {
+			return false
+		}
+		return alwaysRegisters(x.Body, closures) && alwaysRegisters(x.Else, closures)
+	}
+	return false
+}
+
+// registersSynchronously: some statement of Watch's own top-level body, before its first `go` statement, always
+// registers the listener — i.e. the listener is in place when Watch returns, with and without replay.
+func registersSynchronously(fd *ast.FuncDecl) bool {
+	closures := map[string]bool{}
+	for _, st := range fd.Body.List {
+		if as, ok := st.(*ast.AssignStmt); ok && len(as.Lhs) == 1 && len(as.Rhs) == 1 {
+			if fl, ok := as.Rhs[0].(*ast.FuncLit); ok {
+				reg := false
+				for _, s := range fl.Body.List {
+					if alwaysRegisters(s, map[string]bool{}) {
+						reg = true
+					}
+				}
+				if id, ok := as.Lhs[0].(*ast.Ident); ok && reg {
+					closures[id.Name] = true
+				}
+				continue
+			}
+		}
+		if _, ok := st.(*ast.GoStmt); ok {
+			return false
+		}
+		if alwaysRegisters(st, closures) {
+			return true
+		}
+	}
+	return false
+}
+
 func watchFactsOf(file *ast.File, fd *ast.FuncDecl) watchFacts {
 	var wf watchFacts
 	ch := consumerChan(fd)
@@ -362,6 +437,7 @@ func watchFactsOf(file *ast.File, fd *ast.FuncDecl) watchFacts {
 		}
 		return true
 	})
+	wf.registersBeforeReturn = registersSynchronously(fd)
 	wf.registerBeforeReplay = len(regPos) > 0 && len(readPos) > 0
 	for _, r := range regPos {
 		for _, p := range readPos {
@@ -591,6 +667,7 @@ func init() {
 			}
 			wf := watchFactsOf(f, wd)
 			fmt.Fprintf(&out, "/-- `Watch` in %s: the listener is registered before every replay read -/\ndef %sWatchRegisterBeforeReplay : Bool := %s\n\n", src.rel, src.prefix, leanBool(wf.registerBeforeReplay))
+			fmt.Fprintf(&out, "/-- `Watch` in %s: on every path (with and without replay, one record or all) a statement of Watch's own body registers the listener before the per-watch goroutine is started, so it is in place when Watch returns -/\ndef %sWatchRegistersBeforeReturn : Bool := %s\n\n", src.rel, src.prefix, leanBool(wf.registersBeforeReturn))
 			fmt.Fprintf(&out, "/-- `Watch` in %s opens its own primitive event stream (no shared dispatcher goroutine) -/\ndef %sWatchOwnStream : Bool := %s\n\n", src.rel, src.prefix, leanBool(wf.perWatchStream))
 			fmt.Fprintf(&out, "/-- sends on the consumer channel inside the per-watch goroutine of %s -/\ndef %sWatchSends : Nat := %d\n\n", src.rel, src.prefix, wf.sends)
 			fmt.Fprintf(&out, "/-- … of which inside a `select` that also waits on `ctx.Done()` -/\ndef %sWatchGuardedSends : Nat := %d\n\n", src.prefix, wf.guardedSends)
